@@ -21,7 +21,9 @@ CONSTANTS NW,           \* workers 0..NW-1
           SecondStopHangs,       \* a stop that is never handled keeps its future pending
           AwaitsLastWorkerOnly,  \* the join of the worker replies is satisfied by the last worker's reply alone
           MaxBlocks,             \* 0 / 1: worker threads may be blocked by a non-yielding handler
-          WakeAcceptFirst        \* (as found; defect F8) the accept thread is told to stop BEFORE Stop is sent to the workers
+          WakeAcceptFirst,       \* (as found; defect F8) the accept thread is told to stop BEFORE Stop is sent to the workers
+          MidPollIgnoresStop     \* (as found; defect F9) a worker that meets its closed connection queue in mid-poll quits without
+                                 \* looking at the stop order that arrived during that poll
 
 Workers == 0..(NW - 1)
 Kinds == {"graceful", "forced", "SIGTERM", "SIGINT", "SIGQUIT"}
@@ -35,25 +37,27 @@ VARIABLES cmdq,        \* server command channel: sequence of stop ids
           wst, live, wstop, since, due, reply,     \* per worker
           serverDone, nstops,
           busy,         \* the worker's THREAD is blocked inside a connection handler that does not yield: it takes no step
+          inpoll,       \* the worker is inside a poll of its own future and has ALREADY looked at its stop channel in it (a
+                        \* Service::call that takes a while): a stop order that arrives now is seen at the next poll only
           killedEarly,  \* a connection in progress was torn down during a GRACEFUL stop by a worker that quit without a
                         \* stop order and before shutdown_timeout (its connection queue was closed by the exiting accept thread)
           everGracefulLive, act
-vars == <<cmdq, stops, spc, cur, rxOpen, acc, wst, live, wstop, since, due, reply, serverDone, nstops, busy, killedEarly, everGracefulLive, act>>
-View == <<cmdq, stops, spc, cur, rxOpen, acc, wst, live, wstop, since, due, reply, serverDone, nstops, busy, killedEarly>>
+vars == <<cmdq, stops, spc, cur, rxOpen, acc, wst, live, wstop, since, due, reply, serverDone, nstops, busy, inpoll, killedEarly, everGracefulLive, act>>
+View == <<cmdq, stops, spc, cur, rxOpen, acc, wst, live, wstop, since, due, reply, serverDone, nstops, busy, inpoll, killedEarly>>
 
 A(n) == [n |-> n, i |-> 0, id |-> 0, x |-> ""]
 Init == /\ cmdq = <<>> /\ stops = <<>> /\ spc = "idle" /\ cur = 0 /\ rxOpen = TRUE /\ acc = "running"
         /\ wst = [i \in Workers |-> "run"] /\ live = [i \in Workers |-> 0] /\ wstop = [i \in Workers |-> "none"]
         /\ since = [i \in Workers |-> 0] /\ due = [i \in Workers |-> FALSE] /\ reply = [i \in Workers |-> "none"]
-        /\ serverDone = FALSE /\ nstops = 0 /\ busy = [i \in Workers |-> FALSE] /\ killedEarly = FALSE /\ everGracefulLive = FALSE /\ act = A("Init")
+        /\ serverDone = FALSE /\ nstops = 0 /\ busy = [i \in Workers |-> FALSE] /\ inpoll = [i \in Workers |-> FALSE] /\ killedEarly = FALSE /\ everGracefulLive = FALSE /\ act = A("Init")
 
 (* ---- environment: connections ---- *)
 \* the accept thread dispatches only while it runs
 Dispatch(i) == /\ acc = "running" /\ wst[i] = "run" /\ live[i] < MaxLive
                /\ live' = [live EXCEPT ![i] = @ + 1] /\ act' = [A("Dispatch") EXCEPT !.i = i]
-               /\ UNCHANGED <<cmdq, stops, spc, cur, rxOpen, acc, wst, wstop, since, due, reply, serverDone, nstops, busy, killedEarly, everGracefulLive>>
+               /\ UNCHANGED <<cmdq, stops, spc, cur, rxOpen, acc, wst, wstop, since, due, reply, serverDone, nstops, busy, inpoll, killedEarly, everGracefulLive>>
 FinishConn(i) == /\ live[i] > 0 /\ live' = [live EXCEPT ![i] = @ - 1] /\ act' = [A("FinishConn") EXCEPT !.i = i]
-                 /\ UNCHANGED <<cmdq, stops, spc, cur, rxOpen, acc, wst, wstop, since, due, reply, serverDone, nstops, busy, killedEarly, everGracefulLive>>
+                 /\ UNCHANGED <<cmdq, stops, spc, cur, rxOpen, acc, wst, wstop, since, due, reply, serverDone, nstops, busy, inpoll, killedEarly, everGracefulLive>>
 
 (* ---- callers / signals ---- *)
 IssueStop(kind) ==
@@ -61,18 +65,18 @@ IssueStop(kind) ==
   /\ stops' = Append(stops, [kind |-> kind, resolved |-> (~rxOpen /\ ~SecondStopHangs)])   \* send fails: tx dropped at once
   /\ cmdq' = (IF rxOpen THEN Append(cmdq, nstops + 1) ELSE cmdq)
   /\ act' = [A("IssueStop") EXCEPT !.id = nstops + 1, !.x = kind]
-  /\ UNCHANGED <<spc, cur, rxOpen, acc, wst, live, wstop, since, due, reply, serverDone, busy, killedEarly, everGracefulLive>>
+  /\ UNCHANGED <<spc, cur, rxOpen, acc, wst, live, wstop, since, due, reply, serverDone, busy, inpoll, killedEarly, everGracefulLive>>
 
 (* ---- server command loop ---- *)
 SrvTake == /\ spc = "idle" /\ cmdq # <<>> /\ rxOpen
            /\ cur' = Head(cmdq) /\ cmdq' = Tail(cmdq) /\ spc' = (IF WakeAcceptFirst THEN "wakeAccept" ELSE "sendWorkers")
            /\ act' = [A("SrvTake") EXCEPT !.id = Head(cmdq)]
-           /\ UNCHANGED <<stops, rxOpen, acc, wst, live, wstop, since, due, reply, serverDone, nstops, busy, killedEarly, everGracefulLive>>
+           /\ UNCHANGED <<stops, rxOpen, acc, wst, live, wstop, since, due, reply, serverDone, nstops, busy, inpoll, killedEarly, everGracefulLive>>
 AfterSend == IF (Graceful(stops[cur].kind) /\ ~GracefulSkipsAwait) \/ ForcedAwaitsWorkers THEN "awaitWorkers" ELSE "joinAccept"
 SrvWakeAccept == /\ spc = "wakeAccept" /\ acc' = (IF acc = "running" THEN "stopreq" ELSE acc)
                  /\ spc' = (IF WakeAcceptFirst THEN "sendWorkers" ELSE AfterSend)
                  /\ act' = A("SrvWakeAccept")
-                 /\ UNCHANGED <<cmdq, stops, cur, rxOpen, wst, live, wstop, since, due, reply, serverDone, nstops, busy, killedEarly, everGracefulLive>>
+                 /\ UNCHANGED <<cmdq, stops, cur, rxOpen, wst, live, wstop, since, due, reply, serverDone, nstops, busy, inpoll, killedEarly, everGracefulLive>>
 SrvSendWorkers ==
   /\ spc = "sendWorkers"
   /\ wstop' = [i \in Workers |-> IF wst[i] = "done" THEN wstop[i] ELSE (IF Graceful(stops[cur].kind) THEN "graceful" ELSE "forced")]
@@ -81,25 +85,25 @@ SrvSendWorkers ==
   /\ reply' = [i \in Workers |-> IF wst[i] = "done" /\ reply[i] = "none" THEN "gone" ELSE reply[i]]
   /\ everGracefulLive' = (everGracefulLive \/ (Graceful(stops[cur].kind) /\ \E i \in Workers : live[i] > 0))
   /\ act' = A("SrvSendWorkers")
-  /\ UNCHANGED <<cmdq, stops, cur, rxOpen, acc, wst, live, since, due, serverDone, nstops, busy, killedEarly>>
+  /\ UNCHANGED <<cmdq, stops, cur, rxOpen, acc, wst, live, since, due, serverDone, nstops, busy, inpoll, killedEarly>>
 SrvAwaitWorkers == /\ spc = "awaitWorkers"
                    /\ (IF AwaitsLastWorkerOnly THEN reply[NW - 1] # "none" ELSE \A i \in Workers : reply[i] # "none")
                    /\ spc' = "joinAccept" /\ act' = A("SrvAwaitWorkers")
-                   /\ UNCHANGED <<cmdq, stops, cur, rxOpen, acc, wst, live, wstop, since, due, reply, serverDone, nstops, busy, killedEarly, everGracefulLive>>
+                   /\ UNCHANGED <<cmdq, stops, cur, rxOpen, acc, wst, live, wstop, since, due, reply, serverDone, nstops, busy, inpoll, killedEarly, everGracefulLive>>
 SrvJoinAccept == /\ spc = "joinAccept" /\ (acc = "exited" \/ CompleteBeforeJoin)
                  /\ spc' = "complete" /\ act' = A("SrvJoinAccept")
-                 /\ UNCHANGED <<cmdq, stops, cur, rxOpen, acc, wst, live, wstop, since, due, reply, serverDone, nstops, busy, killedEarly, everGracefulLive>>
+                 /\ UNCHANGED <<cmdq, stops, cur, rxOpen, acc, wst, live, wstop, since, due, reply, serverDone, nstops, busy, inpoll, killedEarly, everGracefulLive>>
 \* completion sent; the run loop breaks; the receiver is dropped: queued stops lose their completion sender
 SrvComplete ==
   /\ spc = "complete" /\ spc' = "done" /\ rxOpen' = FALSE /\ serverDone' = TRUE
   /\ stops' = [k \in 1..Len(stops) |-> IF k = cur \/ (~SecondStopHangs /\ \E q \in 1..Len(cmdq) : cmdq[q] = k)
                                           THEN [stops[k] EXCEPT !.resolved = TRUE] ELSE stops[k]]
   /\ cmdq' = <<>> /\ act' = [A("SrvComplete") EXCEPT !.id = cur]
-  /\ UNCHANGED <<cur, acc, wst, live, wstop, since, due, reply, nstops, busy, killedEarly, everGracefulLive>>
+  /\ UNCHANGED <<cur, acc, wst, live, wstop, since, due, reply, nstops, busy, inpoll, killedEarly, everGracefulLive>>
 
 (* ---- accept thread ---- *)
 AcceptExit == /\ acc = "stopreq" /\ acc' = "exited" /\ act' = A("AcceptExit")
-              /\ UNCHANGED <<cmdq, stops, spc, cur, rxOpen, wst, live, wstop, since, due, reply, serverDone, nstops, busy, killedEarly, everGracefulLive>>
+              /\ UNCHANGED <<cmdq, stops, spc, cur, rxOpen, wst, live, wstop, since, due, reply, serverDone, nstops, busy, inpoll, killedEarly, everGracefulLive>>
 
 (* ---- workers (Worker.tla abstracted) ---- *)
 WorkerRecvStop(i) ==
@@ -108,42 +112,51 @@ WorkerRecvStop(i) ==
      ELSE IF wstop[i] = "forced" THEN reply' = [reply EXCEPT ![i] = "false"] /\ wst' = [wst EXCEPT ![i] = "done"] /\ UNCHANGED <<since, due>>
      ELSE wst' = [wst EXCEPT ![i] = "shutdown"] /\ since' = [since EXCEPT ![i] = 0] /\ due' = [due EXCEPT ![i] = FALSE] /\ UNCHANGED reply
   /\ wstop' = [wstop EXCEPT ![i] = "none"] /\ act' = [A("WorkerRecvStop") EXCEPT !.i = i]
-  /\ UNCHANGED <<cmdq, stops, spc, cur, rxOpen, acc, live, serverDone, nstops, busy, killedEarly, everGracefulLive>>
+  /\ UNCHANGED <<cmdq, stops, spc, cur, rxOpen, acc, live, serverDone, nstops, busy, inpoll, killedEarly, everGracefulLive>>
 WorkerTick(i) ==
   /\ wst[i] = "shutdown" /\ (~due[i] \/ since[i] < Timeout)
   /\ due' = [due EXCEPT ![i] = TRUE] /\ since' = [since EXCEPT ![i] = IF @ < Timeout THEN @ + 1 ELSE @]
   /\ act' = [A("WorkerTick") EXCEPT !.i = i]
-  /\ UNCHANGED <<cmdq, stops, spc, cur, rxOpen, acc, wst, live, wstop, reply, serverDone, nstops, busy, killedEarly, everGracefulLive>>
+  /\ UNCHANGED <<cmdq, stops, spc, cur, rxOpen, acc, wst, live, wstop, reply, serverDone, nstops, busy, inpoll, killedEarly, everGracefulLive>>
 WorkerCheck(i) ==
   /\ wst[i] = "shutdown" /\ due[i]
   /\ IF live[i] = 0 THEN reply' = [reply EXCEPT ![i] = "true"] /\ wst' = [wst EXCEPT ![i] = "done"] /\ UNCHANGED due
      ELSE IF since[i] >= Timeout THEN reply' = [reply EXCEPT ![i] = "false"] /\ wst' = [wst EXCEPT ![i] = "done"] /\ UNCHANGED due
      ELSE due' = [due EXCEPT ![i] = FALSE] /\ UNCHANGED <<reply, wst>>
   /\ act' = [A("WorkerCheck") EXCEPT !.i = i]
-  /\ UNCHANGED <<cmdq, stops, spc, cur, rxOpen, acc, live, wstop, since, serverDone, nstops, busy, killedEarly, everGracefulLive>>
+  /\ UNCHANGED <<cmdq, stops, spc, cur, rxOpen, acc, live, wstop, since, serverDone, nstops, busy, inpoll, killedEarly, everGracefulLive>>
 
 \* the exiting accept thread drops the sending ends of the workers' connection queues; a worker that is serving
 \* (Available) and has no stop order waiting takes the closed queue as the end of its life: its future completes, the
 \* worker (arbiter) stops and every connection in progress on it is torn down.  (worker.rs: the stop channel is polled
 \* first, so a worker that already has its order never takes this path.)
+\* In mid-poll (inpoll) the stop channel has been looked at already: as found (F9) the worker quits although its order
+\* is waiting; repaired, it polls again from the top when an order is waiting (LeavePoll, then WorkerRecvStop).
 WorkerQueueClosed(i) ==
-  /\ wst[i] = "run" /\ acc = "exited" /\ wstop[i] = "none"
-  /\ wst' = [wst EXCEPT ![i] = "done"]
+  /\ wst[i] = "run" /\ acc = "exited" /\ (wstop[i] = "none" \/ (inpoll[i] /\ MidPollIgnoresStop))
+  /\ wst' = [wst EXCEPT ![i] = "done"] /\ inpoll' = [inpoll EXCEPT ![i] = FALSE]
   /\ killedEarly' = (killedEarly \/ (live[i] > 0 /\ cur # 0 /\ Graceful(stops[cur].kind)))
   /\ live' = [live EXCEPT ![i] = 0]
   /\ act' = [A("WorkerQueueClosed") EXCEPT !.i = i]
   /\ UNCHANGED <<cmdq, stops, spc, cur, rxOpen, acc, wstop, since, due, reply, serverDone, nstops, busy, everGracefulLive>>
 
+\* the worker starts a poll and finds no stop order (it goes on into its Available loop: readiness checks, calls) / the poll
+\* returns.  While inpoll the worker does not look at the stop channel
+EnterPoll(i) == /\ wst[i] = "run" /\ wstop[i] = "none" /\ ~inpoll[i] /\ MaxBlocks > 0
+                /\ inpoll' = [inpoll EXCEPT ![i] = TRUE] /\ act' = [A("EnterPoll") EXCEPT !.i = i]
+                /\ UNCHANGED <<cmdq, stops, spc, cur, rxOpen, acc, wst, live, wstop, since, due, reply, serverDone, nstops, busy, killedEarly, everGracefulLive>>
+LeavePoll(i) == /\ inpoll[i] /\ inpoll' = [inpoll EXCEPT ![i] = FALSE] /\ act' = [A("LeavePoll") EXCEPT !.i = i]
+                /\ UNCHANGED <<cmdq, stops, spc, cur, rxOpen, acc, wst, live, wstop, since, due, reply, serverDone, nstops, busy, killedEarly, everGracefulLive>>
 SrvStep == SrvTake \/ SrvWakeAccept \/ SrvSendWorkers \/ SrvAwaitWorkers \/ SrvJoinAccept \/ SrvComplete
 \* a handler that does not yield blocks the worker thread for a while (at most one such episode per worker: bounded)
 Block(i) == /\ ~busy[i] /\ live[i] > 0 /\ wst[i] = "run" /\ wstop[i] = "none" /\ MaxBlocks > 0
             /\ busy' = [busy EXCEPT ![i] = TRUE] /\ act' = [A("Block") EXCEPT !.i = i]
-            /\ UNCHANGED <<cmdq, stops, spc, cur, rxOpen, acc, wst, live, wstop, since, due, reply, serverDone, nstops, killedEarly, everGracefulLive>>
+            /\ UNCHANGED <<inpoll, cmdq, stops, spc, cur, rxOpen, acc, wst, live, wstop, since, due, reply, serverDone, nstops, killedEarly, everGracefulLive>>
 Unblock(i) == /\ busy[i] /\ busy' = [busy EXCEPT ![i] = FALSE] /\ act' = [A("Unblock") EXCEPT !.i = i]
-              /\ UNCHANGED <<cmdq, stops, spc, cur, rxOpen, acc, wst, live, wstop, since, due, reply, serverDone, nstops, killedEarly, everGracefulLive>>
-WorkerStep(i) == ~busy[i] /\ (WorkerRecvStop(i) \/ WorkerTick(i) \/ WorkerCheck(i) \/ WorkerQueueClosed(i))
+              /\ UNCHANGED <<inpoll, cmdq, stops, spc, cur, rxOpen, acc, wst, live, wstop, since, due, reply, serverDone, nstops, killedEarly, everGracefulLive>>
+WorkerStep(i) == ~busy[i] /\ ((~inpoll[i] /\ (WorkerRecvStop(i) \/ WorkerTick(i) \/ WorkerCheck(i))) \/ WorkerQueueClosed(i) \/ LeavePoll(i))
 Next == \/ SrvStep \/ AcceptExit
-        \/ \E i \in Workers : WorkerStep(i) \/ Dispatch(i) \/ FinishConn(i) \/ Block(i) \/ Unblock(i)
+        \/ \E i \in Workers : WorkerStep(i) \/ Dispatch(i) \/ FinishConn(i) \/ Block(i) \/ Unblock(i) \/ EnterPoll(i)
         \/ \E k \in Kinds : IssueStop(k)
 Spec == Init /\ [][Next]_vars
 FairSpec == Spec /\ WF_vars(SrvStep) /\ WF_vars(AcceptExit) /\ \A i \in Workers : WF_vars(WorkerStep(i)) /\ WF_vars(Unblock(i))
